@@ -23,6 +23,19 @@ def whenAllSpec (oa ob : Outcome) : Outcome :=
   | .error e, _ => .error e
   | .done, _ => .done
 
+/-- when_any of two results (a completes first): the first VALUE in completion order is the result,
+    unless an error came first; a stop request on the receiver does not discard a value that was
+    already produced -/
+def whenAnySpec (rcvStopped : Bool) (oa ob : Outcome) : Outcome :=
+  let stored : Option Nat :=
+    match oa with
+    | .value v => some v
+    | _ => (match ob with | .value w => some w | _ => none)
+  let r : Outcome := if rcvStopped then .done else (match oa with | .error e => .error e | _ => .done)
+  match r with
+  | .done => (match stored with | some v => .value v | none => .done)
+  | x => x
+
 def evalI : Expr → Env → Outcome
   | .const k, env => k.outcome env
   | .leaf i, _ => match specs i with | .inline o => o | .pending _ => .done
@@ -36,9 +49,34 @@ def evalI : Expr → Env → Outcome
       let ob := evalI b { env with stopped := env.stopped || !oa.isValue, stoppable := true }
       if env.stopped then .done else whenAllSpec oa ob
     | .stopWhen => evalI a { env with stoppable := true }
+    | .whenAny =>
+      -- built from when_all: every first completion stops the others, so b starts stopped
+      let oa := evalI a { env with stoppable := true }
+      let ob := evalI b { env with stopped := true, stoppable := true }
+      whenAnySpec env.stopped oa ob
     | _ =>
       let oa := evalI a env
       if k.takes oa then k.finish (some oa) (evalI b (k.succEnv env oa)) else oa
+
+/-- `waRecord` for plain when_all, without the when_any preprocessing -/
+theorem waRecord_false (st : BinSt) (isA : Bool) (o : Outcome) :
+    waRecord false st isA o =
+      (let st1 := if isA then { st with ra := some o } else { st with rb := some o }
+       match o with
+       | .value _ => (st1, false)
+       | .error e => if st1.doe then (st1, false) else ({ st1 with doe := true, err := some e }, !st1.src)
+       | .done => if st1.doe then (st1, false) else ({ st1 with doe := true }, !st1.src)) := by
+  cases o <;> rfl
+
+/-- `waRecord` for when_any: a value is stored (first wins) and then counts as done -/
+theorem waRecord_true (st : BinSt) (isA : Bool) (o : Outcome) :
+    waRecord true st isA o =
+      (let st0 : BinSt := match o with
+         | .value v => if st.val.isNone then { st with val := some v } else st
+         | _ => st
+       let o' : Outcome := match o with | .value _ => .done | x => x
+       waRecord false st0 isA o') := by
+  cases o <;> simp [waRecord]
 
 /-- all leaves of the expression complete inside start() -/
 def Inline : Expr → Prop
